@@ -358,6 +358,16 @@ func generate(r *rng.R, thorough bool, index int) *history {
 			}
 			o := opJSON{K: "sync", C: newCall(), DT: dt(), W: &wk, Prefer: r.Chance(8)}
 			d, has := belief(wk)
+			if retry && has && r.Chance(30) {
+				// the worker re-requests its task (Idle re-synchronisation) and then
+				// reports a failure: the learner retries on the largest size class
+				do(opJSON{K: "sync", C: newCall(), DT: dt(), W: &wk, St: "idle"})
+				if d2, has2 := belief(wk); has2 && d2 == d && !syncing(wk) {
+					do(opJSON{K: "sync", C: newCall(), DT: dt(), W: &wk, St: "done", D: d, RCode: 0, RExit: 1, RTag: respTag})
+					respTag++
+				}
+				continue
+			}
 			y := r.Intn(100)
 			if policy && has {
 				y = r.Intn(45) // workers mostly finish their task and ask for the next one
